@@ -267,6 +267,7 @@ static void caseE4 ()
 {
     int p = I (0, 5); T tol = TOLS[I (0, 3)];
     Matrix44<T> A = randMat<Matrix44<T>> (4, 2 + (g () % 3 == 0 ? I (1, 2) : 0)), Vm = randMat<Matrix44<T>> (4, 0);
+    const Matrix44<T> Vm0 = Vm;
     Vec4<T> Z (U (-1, 1), U (-1, 1), U (-1, 1), U (-1, 1));
     static const int P[6][2] = {{0, 1}, {0, 2}, {0, 3}, {1, 2}, {1, 3}, {2, 3}};
     printf (CASEP "estep4 %d %d %s %s %s %s => ", P[p][0], P[p][1], hin (tol).c_str (), hm (A, 4, true).c_str (), hm (Vm, 4, true).c_str (), hv (Z, 4, true).c_str ());
@@ -280,7 +281,9 @@ static void caseE4 ()
         case 4: ch = jacobiRotation<1, 3, 0, 2> (A, Vm, Z, tol); break;
         default: ch = jacobiRotation<2, 3, 0, 1> (A, Vm, Z, tol);
     }
+    // the 4x4 body returns true on the early exit too: tell the two arms apart by whether V was rotated
     stats["estep4"]++;
+    stats[memcmp (&Vm, &Vm0, sizeof Vm) != 0 ? "estep4_changed" : "estep4_unchanged"]++;
     printf ("%d %s %s %s\n", ch ? 1 : 0, hm (A, 4).c_str (), hm (Vm, 4).c_str (), hv (Z, 4).c_str ());
 }
 
